@@ -5,6 +5,7 @@ package main
 import (
 	"encoding/json"
 	"fmt"
+	"github.com/ochinchina/sipproxy/vrt/vnet"
 	"net"
 	"sort"
 	"strings"
@@ -32,6 +33,22 @@ type c05Case struct {
 
 func c05Addr(i int) string { return fmt.Sprintf("127.0.1.%d:7000", i+1) }
 
+// c05Name: the address string a backend is registered under. A TCP backend keeps the configured
+// string verbatim, so one of them is a host name with capital letters (resolved by the simulated DNS).
+func c05Name(proto string, i int) string {
+	if proto == "tcp" && i == 1 {
+		return "BE2.Example.NET:7000"
+	}
+	return c05Addr(i)
+}
+
+func c05Wire(name string) string {
+	if name == "BE2.Example.NET:7000" {
+		return c05Addr(1)
+	}
+	return name
+}
+
 type c05World struct {
 	s     *Sim
 	proto string
@@ -45,7 +62,9 @@ type c05World struct {
 
 func c05Start(proto string, naddr int) *c05World {
 	y := fmt.Sprintf("proxies:\n- name: svc.example.com\n  listens:\n  - address: 127.0.0.1\n    udp-port: 5060\n    backends:\n    - %s://%s\n", proto, c05Addr(0))
+	preStart = func() { vnet.SetHost("BE2.Example.NET", false, "127.0.1.2") }
 	w := &c05World{s: StartSim(y, SimOpts{}), proto: proto}
+	preStart = nil
 	w.ua = w.s.UDPPeer("127.0.0.9:5060")
 	for i := 0; i < naddr; i++ {
 		if proto == "udp" {
@@ -81,7 +100,7 @@ func (w *c05World) add(i int) {
 	} else {
 		item := w.s.Proxies()[0].items[0]
 		slr := w.s.Proxies()[0].selfLearnRoute
-		b, err = NewTCPBackend(":0", c05Addr(i), func(conn net.Conn) { item.connectionEstablished(conn, false, slr) })
+		b, err = NewTCPBackend(":0", c05Name("tcp", i), func(conn net.Conn) { item.connectionEstablished(conn, false, slr) })
 	}
 	if err != nil {
 		panic(err)
@@ -93,7 +112,7 @@ func (w *c05World) add(i int) {
 }
 
 func (w *c05World) remove(i int) {
-	if cr := guard(func() { w.rr.RemoveBackend(c05Addr(i)) }); cr != "" {
+	if cr := guard(func() { w.rr.RemoveBackend(c05Name(w.proto, i)) }); cr != "" {
 		w.crash = cr
 	}
 	w.s.Run()
@@ -170,7 +189,7 @@ func c05Exec(proto string, naddr int, hist []c05Op, probe bool) (string, string,
 	// list and map in step with the reference membership
 	var l []string
 	for _, b := range w.rr.backends {
-		l = append(l, b.GetAddress())
+		l = append(l, c05Wire(b.GetAddress()))
 	}
 	sort.Strings(l)
 	if strings.Join(l, ",") != strings.Join(keysOf(reg), ",") || len(w.rr.backendMap) != len(reg) {
@@ -273,7 +292,7 @@ func c05Run(c *Ctx) {
 
 func init() {
 	addCheck(&Check{ID: "C05", Level: "model_checking",
-		Rule:     "explicit-state BFS to a FIXPOINT over the real RoundRobinBackend inside a running proxy: events add(a)/remove(a)/dispatch over 4 (thorough 5) udp and 3 (thorough 5) tcp backend addresses; state = ordered backend list x cursor x map keys x proxy index; every reachable state is followed by a probe of 2k+1 consecutive dispatches; non-trivial = history longer than one event",
+		Rule:     "explicit-state BFS to a FIXPOINT over the real RoundRobinBackend inside a running proxy: events add(a)/remove(a)/dispatch over 4 (thorough 5) udp and 3 (thorough 5) tcp backend addresses (one tcp backend is registered under a host name with capital letters, resolved by the simulated DNS); state = ordered backend list x cursor x map keys x proxy index; every reachable state is followed by a probe of 2k+1 consecutive dispatches; non-trivial = history longer than one event",
 		Assume:   []string{"the fixpoint covers operation sequences of any length over the address universe (finite reachable state space); concurrency half: see C05 race tier"},
 		Run:      c05Run,
 		Collapse: true,
